@@ -664,6 +664,15 @@ func returnedThenSorted(p *Prog, fn *ssa.Function, idx int, depth int) bool {
 // checkSortedUses: every other use is dominated by an in-place sort, or reads the only element of a
 // singleton (x[0] under len(x) == 1).
 func checkSortedUses(p *Prog, x ssa.Value, sortersAt, others []ssa.Instruction) string {
+	// a sort that leaves ties does not remove the map order: position comparisons (C02.LESS), string comparisons and
+	// comparisons of the elements themselves order everything; one numeric component (the line alone) does not
+	for _, s := range sortersAt {
+		if call, ok := s.(ssa.CallInstruction); ok {
+			if why := sortOrdersAll(p, call); why != "" {
+				return fmt.Sprintf("the sort at %s does not settle the order: %s", p.Pos(s.Pos()), why)
+			}
+		}
+	}
 	for _, u := range others {
 		if ia, ok := u.(*ssa.IndexAddr); ok {
 			if k, ok := constInt(ia.Index); ok && k == 0 && underLenIsOne(ia) {
